@@ -283,7 +283,7 @@ def known_findings():
 def write_replay(pid, name, payload):
     path = os.path.join(REPLAYS, "%s-%s.json" % (pid, name))
     with open(path, "w") as f:
-        json.dump(payload, f, indent=1, ensure_ascii=False)
+        json.dump(payload, f, indent=1, ensure_ascii=False, default=repr)
     return path
 
 
@@ -360,7 +360,7 @@ class Outcome:
             "violations": len([l for l in lines if l.startswith("VIOLATION")]),
         }
         with open(os.path.join(EVIDENCE, "%s.json" % self.pid), "w") as f:
-            json.dump(ev, f, indent=1, ensure_ascii=False)
+            json.dump(ev, f, indent=1, ensure_ascii=False, default=repr)
         for l in lines:
             print(l, flush=True)
         if not fail:
